@@ -62,15 +62,17 @@ Lemma chunking_total : forall g fetch ids,
   batch_loop (S (length ids)) (calc_now g) fetch ids (init_chunk g) <> BCrash.
 Proof. intros. apply batch_loop_total; auto. Qed.
 
-(* the chunks handed to the fetcher partition the request, in order: if every chunk is answered with as
-   many documents as it has IDs, the batches concatenate to one document per requested ID *)
-Lemma batch_loop_done : forall fuel g fetch (ans : idsrc -> option body) ids chunk,
-  (forall ch, ch <> [] -> fetch ch = FOk (map ans ch)) ->
-  (length ids <= fuel)%nat -> 1 <= chunk ->
+(* the chunks handed to the fetcher partition the request, in order: if every non-empty chunk (satisfying an
+   invariant P inherited by prefixes and suffixes of the request) is answered with one entry per ID, the
+   batches concatenate to one entry per requested ID *)
+Lemma batch_loop_done : forall (P : list idsrc -> Prop) fuel g fetch (ans : idsrc -> option body) ids chunk,
+  (forall l n, P l -> P (firstn n l) /\ P (skipn n l)) ->
+  (forall ch, ch <> [] -> P ch -> fetch ch = FOk (map ans ch)) ->
+  P ids -> (length ids <= fuel)%nat -> 1 <= chunk ->
   exists l, batch_loop fuel (calc_now g) fetch ids chunk = BDone l /\ concat l = map ans ids
             /\ Forall (fun b => b <> []) l.
 Proof.
-  induction fuel as [|k IH]; intros g fetch ans ids chunk Hf Hl Hc.
+  intros P. induction fuel as [|k IH]; intros g fetch ans ids chunk HP Hf Hp Hl Hc.
   - destruct ids; simpl in *; [exists []; auto|lia].
   - destruct ids as [|s r]; [exists []; simpl; auto|].
     remember (s :: r) as ids eqn:E.
@@ -80,8 +82,9 @@ Proof.
     set (l := N.to_nat (N.min (N.of_nat (length ids)) chunk)).
     assert (Hl1 : (1 <= l)%nat) by (unfold l; lia).
     pose proof (firstn_nonempty _ ids l Hne Hl1) as Hfn.
-    rewrite (Hf _ Hfn). unfold calc_now at 1.
-    destruct (IH g fetch ans (skipn l ids) (calc_chunk g (map ans (firstn l ids)) chunk) Hf) as [t [H1 [H2 H3]]].
+    destruct (HP ids l Hp) as [Hp1 Hp2].
+    rewrite (Hf _ Hfn Hp1). unfold calc_now at 1.
+    destruct (IH g fetch ans (skipn l ids) (calc_chunk g (map ans (firstn l ids)) chunk) HP Hf Hp2) as [t [H1 [H2 H3]]].
     + rewrite skipn_length. lia.
     + apply calc_chunk_pos; exact Hc.
     + rewrite H1. simpl. exists (map ans (firstn l ids) :: t). split; [reflexivity|]. split.
